@@ -571,6 +571,32 @@ func ruleC12FailedCreationDisarms(c *Ctx) {
 					return pathContinue
 				}, nil)
 				construct := trimPkgDirs(shortName(f)) + "/error-return-after-newSecret"
+				// and the disarming step (which drops the secret's reference to its pages) comes AFTER the pages were
+				// released: no Unlock/Free/Clean may follow it on the way to this return (it would be handed a nil region)
+				lateCleanup := ""
+				allInstrs(f, func(j ssa.Instruction) {
+					call, isCall := j.(*ssa.Call)
+					if !isCall || !reaches(cv, j) || !reaches(j, r) {
+						return
+					}
+					if h := staticCallee(call); h != nil && marksClosed(h) {
+						bad, _ := pathSearch(j, func(k ssa.Instruction) pathAction {
+							if k == ssa.Instruction(r) {
+								return pathStop
+							}
+							if op := mcOp(k); op == "Unlock" || op == "Free" || staticIs(k, pkgMemcall+".Clean") {
+								lateCleanup = u.ipos(k)
+								return pathFound
+							}
+							return pathContinue
+						}, nil)
+						_ = bad
+					}
+				})
+				if lateCleanup != "" {
+					c.bad(construct, u.ipos(r), "the abandoned secret is disarmed (its bytes reference dropped) BEFORE the pages are unlocked and freed ("+lateCleanup+"): the cleanup then runs on a nil region, the real pages — still holding the secret — stay mapped and locked, and nothing will ever release them")
+					continue
+				}
 				if found {
 					c.bad(construct, u.ipos(r), "a failed creation releases the pages but leaves the abandoned secret open with its finalizer armed: the garbage collector later runs Close on it — Protect/wipe/Unlock/Free on pages that are no longer its own (possibly another secret's by then) and InUseCounter.Dec for a secret that was never counted", u.tracePositions(tr)...)
 				} else {
